@@ -1,12 +1,26 @@
 /-
   C10 — A failed operation changes nothing; the size limit cannot be bypassed.
-  Proved here (partial: insertion only; the other mutators are covered by the script correspondence):
+  Proved here:
   * `insert_size_limit`: for *every* object and *every* record bytes, a successful `insert_rr` leaves a
-    packet of at most 8192 bytes — whatever the size of the packet it started from;
-  * `insert_failure_plain`: on a pointer-free object, a failing `insert_rr` (too large, a second
-    question, a full section) returns the object unchanged.
+    packet of at most 8192 bytes — whatever the size of the packet it started from; `insert_too_large`:
+    a packet that would exceed the limit is refused with PacketTooLarge, unchanged;
+  * `insert_failure_plain`: on a pointer-free object a failing `insert_rr` (too large, a second
+    question, a full section) returns the object given;
+  * `delete_void_unchanged`, `set_name_void`: an operation through the cursor of a deleted record
+    reports VoidRecord and returns object and cursor as they were;
+  * `set_name_invalid` (+ `set_name_arg_total`): an invalid or over-long name is refused by the checker
+    before any byte moves;
+  * `set_ip_failure`: wrong address family / not an address record: error, object unchanged;
+  * `rename_failure`: a rename that overflows a name (or whose result is refused) returns the object
+    unchanged.
+  An unchanged object trivially still satisfies C08.  Not covered by a theorem (script correspondence
+  only): malformed record text at the object API (the text is refused by synthesis — C13
+  `excluded_is_error` — before insertion is attempted), `set_raw_name` refused for size (returns the
+  object with its question cache emptied), failures of insertion into a still-compressed object
+  (decompression happens first; the bytes change, the decoded message does not).
 -/
 import DnsModel.Lemmas.InsertRec
+import DnsModel.Lemmas.SetName
 namespace Dns.C10
 open Dns Res
 
@@ -122,5 +136,54 @@ theorem insert_too_large (pp : PP) (sect : Section) (rr : Bytes) (hmc : pp.maybe
   unfold insertRR
   have : pp.packet.length + rr.length > DNS_MAX_UNCOMPRESSED_SIZE := hbig
   simp [hmc, this]
+
+/-- **an operation through a void cursor** (nothing yielded yet, or the record already deleted):
+`delete` reports it and returns the object and the cursor as they were -/
+theorem delete_void_unchanged (pp : PP) (c : Cursor) (h : c.offset = none) :
+    deleteRR pp c = .ok { pp := pp, cur := c, result := some .voidRecord } := delete_void pp c h
+
+/-- **an invalid or over-long name**: `set_raw_name` reports the checker's error before anything moves -/
+theorem set_name_invalid (pp : PP) (c : Cursor) (name : Bytes) (e : Err) (h : checkCompressedName name 0 = .err e) :
+    setRawName pp c name = .ok { pp := pp, cur := c, result := some e } := by
+  unfold setRawName
+  rw [h]
+  rfl
+
+/-- the name checker never panics or loops: an argument is either accepted or refused with an error -/
+theorem set_name_arg_total (name : Bytes) :
+    (∃ e, checkCompressedName name 0 = .err e) ∨ (∃ n, checkCompressedName name 0 = .ok n) :=
+  checkCompressedName_total name 0
+
+/-- `set_raw_name` through a void cursor on a pointer-free object: reported, nothing touched -/
+theorem set_name_void (pp : PP) (c : Cursor) (name : Bytes) {n : Nat} (hn : checkCompressedName name 0 = .ok n)
+    (hmc : pp.maybeCompressed = false) (h : c.offset = none) :
+    setRawName pp c name = .ok { pp := pp, cur := c, result := some .voidRecord } := by
+  unfold setRawName
+  simp [hn, hmc, h, mOk, mErr]
+
+/-- **wrong address family / not an address record**: `set_rr_ip` reports it, the object is unchanged -/
+theorem set_ip_failure (pp pp' : PP) (c : Cursor) (ip : Bytes) (e : Err) (h : setRrIp pp c ip = .ok (pp', some e)) : pp' = pp :=
+  setRrIp_failure pp pp' c ip e h
+
+/-- **a rename that fails** (a renamed name would overflow, or the result is refused) returns the object
+unchanged -/
+theorem rename_failure (pp pp' : PP) (target source : Bytes) (sfx : Bool) (e : Err)
+    (h : pp.renameWithRawNames target source sfx = .ok (pp', some e)) : pp' = pp := by
+  unfold PP.renameWithRawNames at h
+  cases hr : Dns.renameWithRawNames pp target source sfx with
+  | err e' => rw [hr] at h; simp at h; exact h.1.symm
+  | panic => rw [hr] at h; simp at h
+  | diverge => rw [hr] at h; simp at h
+  | ok packet =>
+    rw [hr] at h
+    simp only at h
+    cases hp : parse packet with
+    | err e' => rw [hp] at h; simp at h; exact h.1.symm
+    | panic => rw [hp] at h; simp at h
+    | diverge => rw [hp] at h; simp at h
+    | ok v =>
+      rw [hp] at h
+      simp only at h
+      split at h <;> simp at h
 
 end Dns.C10
